@@ -43,6 +43,11 @@ def _dsl_lines(text):
     return out
 
 
+@predicate('D14b')
+def _d14b(f):
+    return _d14(f)
+
+
 @predicate('D14')
 def _d14(f):
     """Non-adjacent same-day SELL lines of one security stay separate sales (per-leg gain split differs)."""
